@@ -226,6 +226,17 @@ def cflowOp (args : List String) : String :=
     | none => "bad-op"
   | _, _ => "bad-op"
 
+def poolTraceOp (toks : List String) : String :=
+  let evs : Option (List PoolEv) := toks.mapM fun t =>
+    if t.startsWith "g" then ((t.drop 1).toString.toNat?).map PoolEv.get
+    else if t.startsWith "p" then ((t.drop 1).toString.toNat?).map PoolEv.put
+    else none
+  match evs with
+  | some es => match poolRun { out := [], inPool := [] } es 0 with
+    | none => "accepted"
+    | some i => s!"rejected:{i}"
+  | none => "bad-op"
+
 def step (line : String) : String :=
   match (line.trimAscii.toString.splitOn " ") with
   | ["code.str", n] => match n.toNat? with
@@ -298,6 +309,7 @@ def step (line : String) : String :=
     | none => "bad-op"
   | "neg" :: args => negOp args
   | "cmin" :: args => cminOp args
+  | "pool.trace" :: toks => poolTraceOp toks
   | "cflow" :: args => cflowOp args
   | "gen" :: args => genOp args
   | "icpt" :: args => icptOp args
